@@ -24,6 +24,7 @@ type c05Case struct {
 	Base    string        `json:"base"`  // document the reference is relative to (the root document for the typed/generic root modes)
 	Ref     string        `json:"ref"`   // the reference text
 	Kind    string        `json:"kind"`  // schema, parameter, response, pathitem, items
+	Opts    [3]bool       `json:"opts"`  // ContinueOnError, SkipSchemas, AbsoluteCircularRef: resolution must not depend on them
 	Modes   []string      `json:"modes"` // typed, generic, location, plain (= the entry points without base: ResolveRef, ResolveParameter, ResolveResponse)
 }
 
@@ -175,7 +176,7 @@ func oracleC05(c c05Case) (*vstat.Failure, c05Info) {
 	results := map[string]string{}
 	for _, mode := range c.Modes {
 		l := newLoader(c.Graph.Docs, refused)
-		opts := &spec.ExpandOptions{RelativeBase: c.Base, PathLoader: l.load}
+		opts := &spec.ExpandOptions{RelativeBase: c.Base, PathLoader: l.load, ContinueOnError: c.Opts[0], SkipSchemas: c.Opts[1], AbsoluteCircularRef: c.Opts[2]}
 		optsBefore := *opts
 		var root any
 		var rootBefore []byte
@@ -281,6 +282,9 @@ func genC05(t *rapid.T) c05Case {
 	sort.Strings(docs)
 	targets := c05Targets(mg, docs)
 	c := c05Case{Graph: g, Refused: refused}
+	if gen.Pct(t, "options", 40) {
+		c.Opts = [3]bool{rapid.Bool().Draw(t, "continue"), rapid.Bool().Draw(t, "skip"), rapid.Bool().Draw(t, "abs")}
+	}
 	c.Base = g.Root
 	if gen.Pct(t, "otherbase", 30) {
 		c.Base = docs[gen.Uniform(t, "base", len(docs))]
